@@ -102,6 +102,20 @@ Theorem gen_queue_entries_were_anonymized : forall s o s' outs e,
 Proof. exact gen_queue_origin_l. Qed.
 Print Assumptions gen_queue_entries_were_anonymized.
 
+(* The waiting queue is bounded: over every history of the generated code, started from the freshly constructed
+   endpoint, the queue never holds more than 100 packets - after every single step (the second component of each
+   step record is |queue| after that step) and at the end.  And no run of generated code leaves the endpoint with a
+   deque of another bound, or without one. *)
+Theorem gen_queue_bounded : forall ops r sf, run_gen init ops = Ok (r, sf) ->
+  Z.of_nat (length (queue sf)) <= 100 /\ Forall (fun x => snd (fst x) <= 100) r.
+Proof. exact gen_queue_bounded_l. Qed.
+Print Assumptions gen_queue_bounded.
+
+Theorem gen_deque_bound_is_kept : forall (m : M unit) s s' outs, exec m s = Ok (s', outs) ->
+  exists g, m (mkGS (ep_of s) (w_of s) [] []) = Ok (tt, g) /\ e_qmax (g_ep g) = Some SEND_QUEUE_MAXLEN.
+Proof. exact exec_keeps_bound_l. Qed.
+Print Assumptions gen_deque_bound_is_kept.
+
 (* the generated notify_listeners delivers, in order, to exactly the candidates whose anonymize flag equals
    from_tunnel *)
 Theorem gen_delivery_filter : forall ls from_tunnel, notify_gen ls from_tunnel = Ok (notify ls from_tunnel).
@@ -127,6 +141,15 @@ Example c07x_requeue :
   | Raise _ => []
   end
   = [[]; []; []; [CreateCircuit 1 [4]]; []; []; [Tunnel 50 0 9 0 (pB ++ [2]); Tunnel 50 0 7 0 (pA ++ [1])]].
+Proof. vm_compute. reflexivity. Qed.
+
+(* queue -> ready -> flush -> circuit gone -> 103 sends: 100 wait *)
+Example c07x_overflow_after_flush :
+  match run_gen init ([SetAnon pA true; Attach 1; Send 7 pA (Some exitH); AddHop 0 exitH; Send 8 pA None; Remove 0]
+                      ++ map (fun i => Send (Z.of_nat i) pA None) (seq 0 103)) with
+  | Ok (r, sf) => (length (queue sf), last (map (fun x => snd (fst x)) r) 0)
+  | Raise _ => (0%nat, -1)
+  end = (100%nat, 100).
 Proof. vm_compute. reflexivity. Qed.
 
 Example c07x_find_circuits :
